@@ -178,7 +178,17 @@ impl C03 {
                 return;
             }
         }
-        let r = guarded(|| toml_edit::DocumentMut::from_str(text).map(|doc| doc.to_string()));
+        // the unedited result is printed four ways: directly, a second time, through a clone, and
+        // from the immutable document turned editable
+        let r = guarded(|| {
+            toml_edit::DocumentMut::from_str(text).map(|doc| {
+                let p = doc.to_string();
+                let again = doc.to_string();
+                let cloned = doc.clone().to_string();
+                let via_im = toml_edit::ImDocument::parse(text).ok().map(|im| (im.clone().into_mut().to_string(), im.into_mut().to_string()));
+                (p, again, cloned, via_im)
+            })
+        });
         let printed = match r {
             Err((loc, msg)) => {
                 ctx.violation(&format!("panic:{}", crate::short_loc(&loc)), format!("parse/print panicked at {loc}: {msg}"));
@@ -188,7 +198,23 @@ impl C03 {
                 ctx.count("skipped/refused");
                 return;
             }
-            Ok(Ok(p)) => p,
+            Ok(Ok((p, again, cloned, via_im))) => {
+                if again != p {
+                    ctx.violation("print-twice-differs", format!("printing the same document twice: {p:?} then {again:?}"));
+                }
+                if cloned != p {
+                    ctx.violation("print-of-clone-differs", format!("doc.clone().to_string() differs from doc.to_string(): {cloned:?} vs {p:?}"));
+                }
+                match via_im {
+                    Some((m, i)) => {
+                        if m != p || i != p {
+                            ctx.violation("print-of-ImDocument-differs", format!("ImDocument turned editable prints {i:?}, its clone {m:?}, DocumentMut {p:?}"));
+                        }
+                    }
+                    None => ctx.violation("entry-points-disagree", "DocumentMut accepts, ImDocument refuses".to_string()),
+                }
+                p
+            }
         };
         ctx.count("printed");
         if d.bom {
